@@ -34,7 +34,7 @@ for p in conflicted():
         merged = json.dumps(a, indent=1, sort_keys=True)
     elif p == "known_findings.json":
         a, b = json.loads(ours), json.loads(theirs)
-        key = lambda f: (f.get("property"), f.get("site"), f.get("sig"))
+        key = lambda f: (f.get("property"), f.get("site"), f.get("sig"), f.get("sig_prefix"))
         have = {key(f) for f in a["findings"]}
         fixed = {(f.get("property"), f.get("site")) for f in a["findings"] if f.get("status") == "fixed"}
         for f in b["findings"]:
